@@ -339,6 +339,102 @@ def ft_search(n, init, depth):
     return r
 
 
+# ---------------------------------------------------------------------- long scripted histories (large n)
+
+
+def uf_scripts(n):
+    """union scripts on n elements that build chains, stars and binomial trees (rank ~ log2 n), in both argument orders"""
+    out = {}
+    out["chain_ascending"] = [(i, i + 1) for i in range(n - 1)]
+    out["chain_descending"] = [(i + 1, i) for i in range(n - 2, -1, -1)]
+    out["star"] = [(0, i) for i in range(1, n)] + [(n - 1, 1)]
+    bino, rev = [], []
+    step = 1
+    while step < n:
+        for j in range(0, n - step, 2 * step):
+            bino.append((j, j + step))
+            rev.append((j + step + min(step - 1, n - 1 - j - step), j + step - 1))  # joins through the last members
+        step *= 2
+    out["binomial"] = bino
+    out["binomial_last_members_first"] = rev
+    return out
+
+
+def _long_chunk(params, lo, hi):
+    from solvor.utils.data_structures import FenwickTree, UnionFind
+
+    cases = params
+    r = new_result()
+    for idx in range(lo, hi):
+        kind, n, name = cases[idx]
+        wit = {"structure": kind, "n": n, "script": name, "long": True}
+        errs = []
+        try:
+            if kind == "UnionFind":
+                script = uf_scripts(n)[name]
+                o = UnionFind(n)
+                label = list(range(n))
+                checkpoints = {len(script) - 1} | {k for k in (1, 2, 4, 8, 16, 32, 64, 128, 256) if k < len(script)}
+                for k, (a, b) in enumerate(script):
+                    merged = label[a] != label[b]
+                    ans = gcall(lambda: o.union(a, b), 5.0, 5_000_000)
+                    r["counters"]["transitions"] += 1
+                    if bool(ans) != merged:
+                        errs.append(f"step {k}: union({a},{b}) returned {ans!r}, reference merged={merged}")
+                        break
+                    if merged:
+                        old, new_ = label[b], label[a]
+                        label = [new_ if x == old else x for x in label]
+                    if k in checkpoints:
+                        blocks = {}
+                        for i, x in enumerate(label):
+                            blocks.setdefault(x, set()).add(i)
+                        part = frozenset(frozenset(bk) for bk in blocks.values())
+                        e = _uf_check_obs(gcall(lambda: _uf_observe(o, n), 30.0, 200_000_000), part, n)
+                        if e:
+                            errs.append(f"after step {k} ({script[: k + 1][-3:]} last): {e[0]}")
+                            break
+                        # reads compress paths: observe again on the object itself, then continue the script on it
+                        gcall(lambda: [o.find(i) for i in range(0, n, 7)], 5.0, 5_000_000)
+            else:
+                init = [((i * 7) % 5) - 2 for i in range(n)]
+                ref = list(init)
+                o = FenwickTree(list(init)) if name == "from_list" else FenwickTree(n)
+                if name != "from_list":
+                    ref = [0] * n
+                    for i, x in enumerate(init):
+                        o.update(i, x)
+                        ref[i] += x
+                for i in sorted({0, 1, n - 1, n // 2, 62, 63, 64, 65, 127, 128, 255, 256} & set(range(n))):
+                    gcall(lambda: o.update(i, 3 + i % 4), 5.0, 5_000_000)
+                    ref[i] += 3 + i % 4
+                    r["counters"]["transitions"] += 1
+                errs += _ft_check(gcall(lambda: _ft_observe(o, n), 60.0, 500_000_000), ref, n)[:1]
+        except Exception as ex:  # noqa: BLE001
+            errs.append(f"raised {type(ex).__name__}: {ex}")
+        r["n"] += 1
+        r["nontrivial"] += 1
+        r["counters"]["traces"] += 1
+        r["counters"]["states"] += 1
+        r["outcomes"][f"long:{kind}:{'ok' if not errs else 'mismatch'}"] += 1
+        for e in errs[:1]:
+            r["violations"].append({"function": kind, "kind": "reference_mismatch", "witness": wit, "detail": f"{kind} n={n} script {name}: {e}"})
+        if not r["samples"]:
+            r["samples"].append(wit)
+    return r
+
+
+def long_cases():
+    out = []
+    for n in (70, 300):
+        for name in uf_scripts(n):
+            out.append(("UnionFind", n, name))
+    for n in (64, 65, 130, 257):
+        out.append(("FenwickTree", n, "from_list"))
+        out.append(("FenwickTree", n, "from_size"))
+    return out
+
+
 # ------------------------------------------------------------------------------------------- jobs
 
 
@@ -401,6 +497,7 @@ def jobs(tier, seed):
         ft = [c for c in ft if c[0] != 5 or c[1] is None or (sum(1 for v in c[1] if v) % 3 == seed % 3)]
     ft.sort(key=lambda c: -c[0])
     return [
+        Job("long_scripted_histories", len(long_cases()), _long_chunk, long_cases(), chunk=1, describe="UnionFind with 70 and 300 elements under chain / star / binomial union scripts (both argument orders, reads in between), FenwickTree with 64..257 entries: sizes beyond one machine word of indices, trees of rank 6-8"),
         Job("unionfind_closure", len(uf_ns), _uf_chunk, uf_ns, chunk=1, describe=f"BFS to closure for n in {uf_ns[2:]}; plus n=8 to closure over the declared union alphabets {DEEP8 if tier == 'thorough' else DEEP8Q} and {DEEP8R}"),
         Job("fenwick_depth%d" % depth, len(ft), _ft_chunk, ft, chunk=max(1, len(ft) // 128), describe="(n, initial vector) x all histories to the depth bound"),
     ]
@@ -408,6 +505,13 @@ def jobs(tier, seed):
 
 def _replay_inner(v):
     w = v["witness"]
+    if w.get("long"):
+        cases = long_cases()
+        for i, cse in enumerate(cases):
+            if cse == (w["structure"], w["n"], w["script"]):
+                rr = _long_chunk(cases, i, i + 1)
+                return rr["violations"][0] if rr["violations"] else None
+        return None
     if v["function"] == "UnionFind":
         from solvor.utils.data_structures import UnionFind
 
